@@ -9,6 +9,11 @@ package main
 // independent lstat snapshots (root entry included, path "") are returned.
 // kind 1301: destination empty (C13); 1501: populated destination, copy applied twice (C15);
 // kind 1302: mode strings against dchapes-mode (model of ParseWithUmask/Apply).
+// kind 1303: one SPARSE regular file of a given size (markers at given offsets), copied alone or
+//   inside a directory; output = (errclass dstSize (bytes read at each probe window)).
+// kind 1502: kind 1501 with include / exclude patterns (7th, 8th field): copy applied twice.
+// An optional 7th field of kinds 1301/1501 = rootMode + 16*followLinks (how the roots are named
+// to copy.Copy; CopyInfo.FollowLinks).
 
 import (
 	"context"
@@ -31,6 +36,8 @@ func init() {
 	kinds[0x1301] = run1301
 	kinds[0x1302] = run1302
 	kinds[0x1501] = run1301
+	kinds[0x1303] = run1303
+	kinds[0x1502] = run1301
 	props["C13"] = genC13
 	props["C15"] = genC15
 }
@@ -46,6 +53,9 @@ type c13Opts struct {
 	wild        bool
 	replace     bool
 	umask       int
+	// not part of the serialised option tuple (separate fields of the input)
+	follow   bool
+	inc, exc []string
 }
 
 func (o c13Opts) Sx() Sx {
@@ -183,7 +193,8 @@ func c13CopyOnce(srcRoot, src, dstRoot, dst string, o c13Opts) (cls int, notifs 
 		}()
 		ci := fscopy.CopyInfo{
 			ModeStr: o.modeStr, CopyDirContents: o.dirContents, AllowWildcards: o.wild,
-			AlwaysReplaceExistingDestPaths: o.replace,
+			AlwaysReplaceExistingDestPaths: o.replace, FollowLinks: o.follow,
+			IncludePatterns: o.inc, ExcludePatterns: o.exc,
 			ChangeFunc: func(kind fsutil.ChangeKind, p string, fi os.FileInfo, err error) error {
 				isDir := fi != nil && fi.IsDir()
 				ns = append(ns, L(S(p), Bool(isDir), NI(int(kind))))
@@ -224,8 +235,17 @@ func run1301(in Sx) (out Sx) {
 	o := sxC13Opts(in.L[4])
 	second := in.L[5].IsTrue()
 	rootMode := 0 // how the roots are named to copy.Copy: dst mode + 3 * src mode
-	if len(in.L) > 6 {
-		rootMode = in.L[6].Int()
+	if len(in.L) == 7 {
+		rootMode = in.L[6].Int() % 16
+		o.follow = (in.L[6].Int()/16)%2 == 1
+	}
+	if len(in.L) == 8 { // kind 1502: include / exclude patterns
+		for _, x := range in.L[6].L {
+			o.inc = append(o.inc, x.Str())
+		}
+		for _, x := range in.L[7].L {
+			o.exc = append(o.exc, x.Str())
+		}
 	}
 
 	work := WorkDir("c13-")
@@ -301,6 +321,93 @@ func run1301(in Sx) (out Sx) {
 	}
 	runs = append(runs, ssnap)
 	return L(runs...)
+}
+
+// kind 1303: (size ((off bytes) ...) ((off len) ...) inDir) -> (errclass dstSize (read ...))
+// a sparse file "big" of the given size with marker bytes (earlier markers win where they overlap),
+// copied as a file (src "big" -> dst "copy") or with its directory (src "d" -> dst "n"); the
+// destination is probed at the given windows only
+func run1303(in Sx) (out Sx) {
+	defer func() {
+		if r := recover(); r != nil {
+			out = L(S("harness-panic"), S(fmt.Sprint(r)))
+		}
+	}()
+	size := int64(in.L[0].U64())
+	inDir := in.L[3].IsTrue()
+	work := WorkDir("c13big-")
+	defer os.RemoveAll(work)
+	srcRoot, dstRoot := filepath.Join(work, "s"), filepath.Join(work, "d")
+	for _, d := range []string{srcRoot, dstRoot, filepath.Join(srcRoot, "d")} {
+		if err := os.Mkdir(d, 0755); err != nil {
+			return L(S("setup"), S(err.Error()))
+		}
+	}
+	rel := "big"
+	if inDir {
+		rel = "d/big"
+	}
+	f, err := os.OpenFile(filepath.Join(srcRoot, rel), os.O_CREATE|os.O_RDWR, 0644)
+	if err != nil {
+		return L(S("setup"), S(err.Error()))
+	}
+	if err := f.Truncate(size); err != nil {
+		f.Close()
+		return L(S("setup"), S(err.Error()))
+	}
+	for i := len(in.L[1].L) - 1; i >= 0; i-- {
+		m := in.L[1].L[i]
+		off, b := int64(m.L[0].U64()), []byte(m.L[1].Str())
+		if off+int64(len(b)) > size { // a marker never extends the file
+			if off >= size {
+				continue
+			}
+			b = b[:size-off]
+		}
+		if _, err := f.WriteAt(b, off); err != nil {
+			f.Close()
+			return L(S("setup"), S(err.Error()))
+		}
+	}
+	f.Close()
+	src, dst, dstRel := "big", "copy", "copy"
+	if inDir {
+		src, dst, dstRel = "d", "n", "n/big"
+	}
+	done := make(chan int, 1)
+	go func() {
+		defer func() {
+			if r := recover(); r != nil {
+				done <- 0xfe
+			}
+		}()
+		done <- c13ErrClass(fscopy.Copy(context.Background(), srcRoot, src, dstRoot, dst))
+	}()
+	cls := 0xff
+	select {
+	case cls = <-done:
+	case <-time.After(120 * time.Second):
+	}
+	if cls != 0 {
+		return L(NI(cls), NI(0), L())
+	}
+	g, err := os.Open(filepath.Join(dstRoot, dstRel))
+	if err != nil {
+		return L(S("probe"), S(err.Error()))
+	}
+	defer g.Close()
+	fi, err := g.Stat()
+	if err != nil {
+		return L(S("probe"), S(err.Error()))
+	}
+	var reads []Sx
+	for _, p := range in.L[2].L {
+		off, n := int64(p.L[0].U64()), p.L[1].Int()
+		buf := make([]byte, n)
+		k, _ := g.ReadAt(buf, off)
+		reads = append(reads, S(string(buf[:k])))
+	}
+	return L(NI(0), I64(fi.Size()), L(reads...))
 }
 
 // kind 1302: (modestr perm12 isdir) -> () on a parse error | (newperm12)
@@ -994,6 +1101,344 @@ func c13Collide(g *Gen, kind uint64, c15 bool, n int) {
 	}
 }
 
+// ---- large (sparse) files: sizes at and across the per-call limit of copy_file_range ----
+const c13RWMax = int64(0x7ffff000) // MAX_RW_COUNT: what one copy_file_range / read / write call moves at most
+
+func c13BigCase(r *Rng, size int64, inDir bool) Sx {
+	var marks, probes []Sx
+	seen := map[int64]bool{}
+	addProbe := func(off int64) {
+		if off < 0 {
+			off = 0
+		}
+		if !seen[off] {
+			seen[off] = true
+			probes = append(probes, L(I64(off), NI(64)))
+		}
+	}
+	mark := func(off int64, tag string) {
+		if off < 0 || off >= size {
+			return
+		}
+		marks = append(marks, L(I64(off), S(fmt.Sprintf("%s@%x:%s", tag, off, string(fillContent(r, 1+r.Intn(12)))))))
+		addProbe(off - 32)
+		addProbe(off)
+	}
+	mark(0, "head")
+	for _, t := range []int64{c13RWMax, 1 << 31, 2 * c13RWMax, 1 << 32, 1 << 20, 32 * 1024} {
+		mark(t-int64(1+r.Intn(40)), "before")
+		mark(t, "at")
+		mark(t+int64(1+r.Intn(5000)), "after")
+	}
+	mark(size-int64(1+r.Intn(30)), "tail")
+	if size > 0 {
+		mark(int64(r.Intn(int(min64(size, 1<<40)))), "any")
+	}
+	addProbe(size - 32)
+	addProbe(size)
+	return L(I64(size), L(marks...), L(probes...), Bool(inDir))
+}
+
+func min64(a, b int64) int64 {
+	if a < b {
+		return a
+	}
+	return b
+}
+
+func c13Big(g *Gen) {
+	r := g.Rng
+	small := []int64{0, 1, 4095, 4096, 65537, 1<<20 + 1}
+	for i, sz := range small {
+		g.Emit(0x1303, c13BigCase(r, sz, i%2 == 0), true, "big/small")
+	}
+	// one file across the limit in every run, the sweep in the thorough tier
+	g.Emit(0x1303, c13BigCase(r, 1<<31+8192+int64(r.Intn(100)), r.Bool()), true, "big/over-limit")
+	if g.Vol(0, 1) == 1 {
+		for i, sz := range []int64{c13RWMax - 1, c13RWMax, c13RWMax + 1, 1 << 31, 1<<31 + 8192, 2 * c13RWMax, 2*c13RWMax + 1, 1<<32 + 1} {
+			g.Emit(0x1303, c13BigCase(r, sz, i%2 == 1), true, "big/sweep")
+		}
+	}
+}
+
+// ---- wildcard bases and sources that are symlinks, FollowLinks off and on ----
+func c13LinkTo(name, target string, r *Rng) *MNode {
+	n := c13Node("link", name, r, "")
+	n.Stat.Linkname = target
+	n.Stat.Size = int64(len(target))
+	return n
+}
+
+func c13WildLinkCase(r *Rng, c15 bool) (Sx, string) {
+	names := []string{"a.conf", "b.conf", "c.txt", "sub"}
+	mk := func(dn string) *MNode {
+		var kids []*MNode
+		for _, nm := range names {
+			if r.Chance(70) {
+				if nm == "sub" {
+					kids = append(kids, c13DirOf(nm, r, c13Node("file", "x", r, "")))
+				} else {
+					kids = append(kids, c13Node("file", nm, r, ""))
+				}
+			}
+		}
+		return c13DirOf(dn, r, kids...)
+	}
+	relKids := []*MNode{mk("v1"), mk("v2")}
+	if r.Chance(60) {
+		relKids = append(relKids, c13LinkTo("cur", Pick(r, []string{"v1", "v2", "../rel/v2"}), r))
+	}
+	roots := []*MNode{c13DirOf("rel", r, relKids...),
+		c13LinkTo("current", Pick(r, []string{"rel/v2", "rel/v1", "rel", "./rel/v2/"}), r)}
+	if r.Chance(50) {
+		roots = append(roots, c13LinkTo("lf", "rel/v1/a.conf", r))
+	}
+	if r.Chance(50) {
+		roots = append(roots, c13LinkTo("dang", "nonexistent", r))
+	}
+	if r.Chance(50) {
+		roots = append(roots, c13DirOf("conf", r, c13Node("file", "a.conf", r, ""), c13Node("file", "z", r, "")))
+	}
+	sort.Slice(roots, func(i, j int) bool { return roots[i].Name < roots[j].Name })
+	src := Pick(r, []string{"current/*", "current/*.conf", "current/?*", "rel/cur/*", "rel/cur/*.conf", "current/sub/*", "c*/*",
+		"lf/*", "dang/*", "conf/*", "conf/*.conf", "current/", "current", "rel/cur", "*/v2/*", "current/*/x", "rel/*/a.conf", "lf", "*",
+		"rel/v?/*.conf", "cur*", "rel/c*"})
+	o := c13Opts{umask: 022, wild: strings.ContainsAny(src, "*?") || r.Chance(30)}
+	ocls := "none"
+	if r.Chance(30) {
+		o, ocls = c13GenOptsIndep(r, c15)
+		o.wild = strings.ContainsAny(src, "*?") || r.Chance(30)
+	}
+	if c15 && r.Chance(40) {
+		o.replace = true
+	}
+	var dv []*MNode
+	dst := Pick(r, []string{"/", "etc", "etc/", "n/"})
+	if c15 {
+		dv = []*MNode{c13DirOf("etc", r, c13Node(Pick(r, []string{"file", "dir", "link"}), "a.conf", r, ""), c13Node("file", "keep", r, ""))}
+		if r.Chance(30) {
+			dv = append(dv, c13Node("file", "v2", r, ""))
+		}
+	}
+	follow := r.Bool()
+	cls := "wildlink/" + ocls
+	fields := []Sx{ViewSx(roots), ViewSx(dv), S(src), S(dst), o.Sx(), Bool(c15)}
+	if follow {
+		fields = append(fields, NI(16))
+		cls += "+follow"
+	}
+	return L(fields...), cls
+}
+
+// ---- backslash escapes in wildcard sources; names that contain [ * ? \ literally ----
+var c13OddNames = []string{"[ab", "[", "x?z", "xyz", "x?", "a*", "a*b", "ab", "\\", "\\x", "a\\*", "*", "?", "[a]", "a", "x??"}
+
+func c13EscapeCase(r *Rng, c15 bool) (Sx, string) {
+	mk := func(nm string) *MNode {
+		if r.Chance(30) {
+			return c13DirOf(nm, r, c13Node("file", Pick(r, c13OddNames), r, ""), c13Node("file", "f", r, ""))
+		}
+		return c13Node(Pick(r, []string{"file", "file", "link", "fifo"}), nm, r, "")
+	}
+	pickNames := func(k int) []string {
+		seen := map[string]bool{}
+		var out []string
+		for len(out) < k {
+			nm := Pick(r, c13OddNames)
+			if !seen[nm] {
+				seen[nm] = true
+				out = append(out, nm)
+			}
+		}
+		sort.Strings(out)
+		return out
+	}
+	var roots []*MNode
+	for _, nm := range pickNames(3 + r.Intn(5)) {
+		roots = append(roots, mk(nm))
+	}
+	var sub []*MNode
+	for _, nm := range pickNames(2 + r.Intn(4)) {
+		sub = append(sub, mk(nm))
+	}
+	roots = append(roots, c13DirOf("sub", r, sub...))
+	sort.Slice(roots, func(i, j int) bool { return roots[i].Name < roots[j].Name })
+	// an escaped metacharacter followed by real wildcards, escapes only, escaped backslash, plain
+	pats := []string{"\\[*", "x\\??", "\\[", "a\\*", "a\\**", "\\**", "\\??", "\\?", "\\\\*", "\\\\", "\\[a]", "\\[a*", "x\\?z", "x\\?*",
+		"*\\*", "*\\?*", "a\\*b", "?\\?", "\\a*", "x??", "*", "[a]", "a*\\", "\\x?z", "x\\??z"}
+	p := Pick(r, pats)
+	src := p
+	switch r.Intn(4) {
+	case 0:
+		src = "sub/" + p
+	case 1:
+		src = p + "/" + Pick(r, []string{"*", "f", Pick(r, pats)})
+	}
+	o := c13Opts{umask: 022, wild: r.Chance(85)}
+	ocls := "none"
+	if r.Chance(25) {
+		w := o.wild
+		o, ocls = c13GenOptsIndep(r, c15)
+		o.wild = w
+	}
+	if c15 && r.Chance(40) {
+		o.replace = true
+	}
+	var dv []*MNode
+	if c15 {
+		dv = []*MNode{c13DirOf("n", r, c13Node(Pick(r, []string{"file", "dir"}), Pick(r, c13OddNames), r, ""))}
+	}
+	dst := Pick(r, []string{"/", "n", "n/"})
+	return L(ViewSx(roots), ViewSx(dv), S(src), S(dst), o.Sx(), Bool(c15)), "escapes/" + ocls
+}
+
+func c13Escapes(g *Gen, kind uint64, c15 bool, n int) {
+	for i := 0; i < n; i++ {
+		in, cls := c13EscapeCase(g.Rng, c15)
+		g.Emit(kind, in, true, cls)
+	}
+}
+
+func c13WildLinks(g *Gen, kind uint64, c15 bool, n int) {
+	for i := 0; i < n; i++ {
+		in, cls := c13WildLinkCase(g.Rng, c15)
+		g.Emit(kind, in, true, cls)
+	}
+}
+
+// ---- kind 1502: include / exclude patterns, special bits on the directories that are only
+// created as parents of something selected, populated destination, the copy applied twice ----
+func c15SpecialDirs(r *Rng, n *MNode) {
+	m := os.FileMode(n.Stat.Mode)
+	if m.IsDir() {
+		if r.Chance(50) {
+			n.Stat.Mode |= uint32(Pick(r, []os.FileMode{os.ModeSetgid, os.ModeSticky, os.ModeSetuid, os.ModeSetgid | os.ModeSticky}))
+		}
+		for _, k := range n.Kids {
+			c15SpecialDirs(r, k)
+		}
+	}
+}
+
+func c15Clone(n *MNode) *MNode {
+	c := &MNode{Name: n.Name, Stat: n.Stat.CloneVT(), Content: append([]byte{}, n.Content...)}
+	for _, k := range n.Kids {
+		c.Kids = append(c.Kids, c15Clone(k))
+	}
+	return c
+}
+
+func c15Patterns(r *Rng, rels []string) (inc, exc []string, cls string) {
+	if len(rels) == 0 {
+		return nil, nil, "none"
+	}
+	var deep []string
+	for _, p := range rels {
+		if strings.Count(p, "/") >= 1 {
+			deep = append(deep, p)
+		}
+	}
+	p := Pick(r, rels)
+	if len(deep) > 0 && r.Chance(70) {
+		p = Pick(r, deep)
+	}
+	cs := strings.Split(p, "/")
+	switch r.Intn(8) {
+	case 0:
+		return []string{p}, nil, "literal"
+	case 1:
+		return []string{"**/" + cs[len(cs)-1]}, nil, "**/name"
+	case 2:
+		if len(cs) >= 2 {
+			cs2 := append([]string{}, cs...)
+			cs2[r.Intn(len(cs2)-1)] = "*"
+			return []string{strings.Join(cs2, "/")}, nil, "a/*/c"
+		}
+		return []string{"*/" + p}, nil, "*/p"
+	case 3:
+		return nil, []string{cs[0], "!" + p}, "exclude-with-exception"
+	case 4:
+		return []string{p}, []string{p + "/*"}, "dir-without-descendants"
+	case 5:
+		return []string{p + "/*"}, nil, "p/*"
+	case 6:
+		return []string{p, Pick(r, rels)}, []string{"**/" + Pick(r, c13Universe)}, "two+exclude"
+	}
+	return nil, []string{Pick(r, rels)}, "exclude"
+}
+
+func c15FilteredCase(r *Rng) (Sx, string) {
+	var sv []*MNode
+	if r.Chance(50) {
+		to := TreeOpts{MaxEntries: 12, MaxDepth: 4, Types: true, HardLinks: true, Xattrs: true, Owners: true, Names: c13Universe}
+		sv = GenView(r, to)
+		c13FixView(r, sv, true, true)
+	} else {
+		// a chain of directories with something selectable at the bottom and beside it
+		sv = []*MNode{c13DirOf("d1", r,
+			c13DirOf("d2", r, c13Node("file", "f1", r, ""), c13Node(Pick(r, c13Kinds), "x", r, "y"), c13DirOf("d1", r, c13Node("file", "f2", r, ""))),
+			c13Node("file", "f2", r, ""), c13Node(Pick(r, c13Kinds), "y", r, "f1")),
+			c13Node("file", "f1", r, "")}
+	}
+	for _, n := range sv {
+		c15SpecialDirs(r, n)
+	}
+	sp := c13Collect(sv)
+	// the source: the root or one of its directories
+	src, base := "/", ""
+	if len(sp.dirs) > 0 && r.Chance(60) {
+		base = Pick(r, sp.dirs)
+		src = base
+	}
+	var rels []string
+	for _, p := range sp.all {
+		if base == "" {
+			rels = append(rels, p)
+		} else if strings.HasPrefix(p, base+"/") {
+			rels = append(rels, p[len(base)+1:])
+		}
+	}
+	// the destination: the resolved dst is an existing directory (the landing path is then the
+	// same for both applications)
+	var dv []*MNode
+	switch r.Intn(3) {
+	case 0: // only the landing directory
+	case 1: // the source itself, partly, with other metadata (a previous copy, edited)
+		for _, n := range sv {
+			dv = append(dv, c15Clone(n))
+		}
+		c13FixView(r, dv, false, false)
+		c13FixView(r, dv, false, false)
+	default:
+		to := TreeOpts{MaxEntries: 8, MaxDepth: 3, Types: true, HardLinks: true, Xattrs: true, Owners: true, Names: c13Universe}
+		dv = GenView(r, to)
+		c13FixView(r, dv, true, true)
+	}
+	dst := "/"
+	dp := c13Collect(dv)
+	if len(dp.dirs) > 0 && r.Chance(40) {
+		dst = Pick(r, dp.dirs) + Pick(r, []string{"", "/"})
+	}
+	o, ocls := c13GenOpts(r, true)
+	o.wild = false
+	inc, exc, pcls := c15Patterns(r, rels)
+	is, es := make([]Sx, len(inc)), make([]Sx, len(exc))
+	for i, p := range inc {
+		is[i] = S(p)
+	}
+	for i, p := range exc {
+		es[i] = S(p)
+	}
+	return L(ViewSx(sv), ViewSx(dv), S(src), S(dst), o.Sx(), Bool(true), L(is...), L(es...)), "filtered/" + pcls + "/" + ocls
+}
+
+func c15Filtered(g *Gen, n int) {
+	for i := 0; i < n; i++ {
+		in, cls := c15FilteredCase(g.Rng)
+		g.Emit(0x1502, in, true, cls)
+	}
+}
+
 func c13OK(out Sx) bool {
 	return len(out.L) >= 2 && out.L[0].Kind == 'l' && len(out.L[0].L) == 3 && out.L[0].L[0].Int() == 0
 }
@@ -1002,6 +1447,9 @@ func genC13(g *Gen) {
 	c13Directed(g)
 	c13DirectedRoots(g)
 	c13DirectedModes(g)
+	c13Big(g)
+	c13WildLinks(g, 0x1301, false, g.Vol(150, 3000))
+	c13Escapes(g, 0x1301, false, g.Vol(200, 4000))
 	c13Collide(g, 0x1301, false, g.Vol(100, 2000))
 	n := g.Vol(1500, 30000)
 	for i := 0; i < n; i++ {
@@ -1037,6 +1485,9 @@ func genC13(g *Gen) {
 func genC15(g *Gen) {
 	c15Directed(g)
 	c13Collide(g, 0x1501, true, g.Vol(250, 5000))
+	c13WildLinks(g, 0x1501, true, g.Vol(150, 3000))
+	c13Escapes(g, 0x1501, true, g.Vol(250, 5000))
+	c15Filtered(g, g.Vol(300, 6000))
 	n := g.Vol(1500, 30000)
 	for i := 0; i < n; i++ {
 		in, cls, big := c13Case(g.Rng, true)
